@@ -56,6 +56,10 @@ pub fn curated() -> Vec<Scen> {
             vec![ff(5, A), link(5, A, 4, A), link(4, A, 2, A), link(2, A, 0, 0), skip(6), skip(7), Op::Wait(8), notar(4, A), skip(3)],
         ),
         s(
+            "two-notar-fallback-certs-in-last-slot-of-window",
+            vec![ff(1, A), link(1, A, 0, 0), notar(2, A), notar(3, A), nf(3, A), nf(3, X), Op::Wait(4), link(3, A, 2, A)],
+        ),
+        s(
             "two-windows-skip-chain",
             vec![skip(1), skip(2), skip(3), skip(4), skip(5), skip(6), skip(7), notar(2, A), Op::Wait(8), Op::Wait(4)],
         ),
@@ -104,6 +108,7 @@ pub fn systematic(slots: u64, max_ops: usize) -> Vec<Scen> {
         ("none", false, |_| vec![]),
         ("orphan", false, |s| vec![skip(s), notar(s, X)]),
         ("nf-vs-orphan-notar", true, |s| vec![nf(s, A), notar(s, X)]),
+        ("two-nf", true, |s| vec![nf(s, A), nf(s, X)]),
     ];
     let mut out = Vec::new();
     let k = menu.len() as u64;
@@ -194,15 +199,12 @@ fn scen_set(tier: Tier) -> Vec<Scen> {
     v.extend(vote_built());
     match tier {
         Tier::Quick => {
-            let sys = systematic(3, 8);
-            // a deterministic spread of the systematic family
-            let step = (sys.len() / 24).max(1);
-            v.extend(sys.into_iter().step_by(step));
+            v.extend(systematic(3, 9));
         }
         Tier::Thorough => {
-            v.extend(systematic(3, 10));
-            let sys = systematic(4, 10);
-            let step = (sys.len() / 400).max(1);
+            v.extend(systematic(3, 11));
+            let sys = systematic(4, 11);
+            let step = (sys.len() / 1500).max(1);
             v.extend(sys.into_iter().step_by(step));
         }
     }
